@@ -7,7 +7,7 @@
 From Coq Require Import List NArith ZArith QArith Bool Arith Lia Permutation.
 Import ListNotations.
 From FP Require Import Lin Blocks BlocksProofs PathEnc PathEncProofs Euler EulerProofs1 EulerProofs4 WalkDecode WfCheck
-                       WalkEncRows WalkEncRowsProofs WalkErrEnc WalkErrEncProofs WalkTree WalkEncComplete WalkEncIff WalkCoverIff.
+                       WalkEncRows WalkEncRowsProofs WalkErrEnc WalkErrEncProofs WalkTree WalkEncComplete WalkEncIff WalkCoverIff WalkErrCompleteW WalkErrIff.
 Set Default Timeout 60.
 Local Close Scope Q_scope.
 
@@ -120,6 +120,20 @@ Theorem kpcc_feasible_iff_checked (I : kpcc_inst) :
   ((exists a, sat a (encode_kpcc I)) <-> (exists P, cover_admissible I P)).
 Proof.
   intros H1 H2 Hae. apply kpcc_feasible_iff_within_caps; [apply wf_stg_b_sound; exact H1|exact Hae|apply winputs_ok_b_sound_w; exact H2].
+Qed.
+
+(* C07 / C08 (cyclic): feasibility of the error LPs characterised, premises decided by the extracted checkers *)
+Theorem klaec_feasible_iff_checked (I : werr_inst) :
+  wf_stg_b (x_graph I) = true -> winputs_ok_b (werr_walk I) = true -> o_allow_empty (x_opts I) = false ->
+  ((exists a, sat a (encode_klae_cycles I)) <-> (exists P wt err, klaec_admissible I P wt err)).
+Proof.
+  intros H1 H2 Hae. apply klaec_feasible_iff_within_caps; [apply wf_stg_b_sound; exact H1|exact Hae|apply winputs_ok_b_sound_w; exact H2].
+Qed.
+Theorem kmpec_feasible_iff_checked (I : werr_inst) :
+  wf_stg_b (x_graph I) = true -> winputs_ok_b (werr_walk I) = true -> o_allow_empty (x_opts I) = false ->
+  ((exists a, sat a (encode_kmpe_cycles I)) <-> (exists P wt sl, kmpec_admissible I P wt sl)).
+Proof.
+  intros H1 H2 Hae. apply kmpec_feasible_iff_within_caps; [apply wf_stg_b_sound; exact H1|exact Hae|apply winputs_ok_b_sound_w; exact H2].
 Qed.
 
 (* non-vacuity: the checker accepts the self-loop graph of WalkExamples *)
